@@ -92,4 +92,5 @@ THEOREMS = [
     ("DastardV.Lemmas.ComposeFile", "DastardV.Compose.pipeline_to_ljh22_file_any_history"),
     ("DastardV.Lemmas.ComposeEndToEnd", "DastardV.Compose.abaco_to_ljh22_file"),
     ("DastardV.Lemmas.ComposeEndToEnd", "DastardV.Compose.lancero_to_ljh22_file"),
+    ("DastardV.Lemmas.ComposeEndToEnd", "DastardV.Compose.prepared_source_to_ljh22_file"),
 ]
